@@ -146,7 +146,7 @@ def gen_cases(tier, seed):
             if cli_model.invalid(flags):
                 flags.remove('--no-remove-annotations')
             cases.append({'name': name, 'src_b64': base64.b64encode(b).decode(), 'flags': flags, 'mode': MODES[i % len(MODES)],
-                          'both': i % 4 == 0, 'decoy_env': i % 3 == 0, 'want_sample': i % 41 == 0})
+                          'both': i % 4 == 0, 'decoy_env': i % 3 == 0, 'want_sample': i % 41 == 0, 'timeout': 100})
             i += 1
     return cases
 
